@@ -347,11 +347,20 @@ pub fn worker_main() {
         } else {
             CUR_JOB.store(job.id, Ordering::SeqCst);
             DEADLINE_MS.store(now_ms() + timeout_ms() as u64, Ordering::SeqCst);
-            let r = run_job_inproc(&job, &dir);
+            let r = if job.sched.is_some() {
+                let _ = std::fs::remove_dir_all(&dir);
+                let _ = std::fs::create_dir_all(&dir);
+                let so = crate::sched::run(&dir, &job);
+                let _ = std::fs::remove_dir_all(&dir);
+                JobResult { id: job.id, status: if so.status.starts_with("internal") { so.status.clone() } else { "ok".into() }, sched: Some(so), ..Default::default() }
+            } else {
+                run_job_inproc(&job, &dir)
+            };
             DEADLINE_MS.store(0, Ordering::SeqCst);
             r
         };
-        let panicked = r.obs.iter().any(|o| matches!(o.res, Res::Panic(_)));
+        let panicked = r.obs.iter().any(|o| matches!(o.res, Res::Panic(_)))
+            || r.sched.as_ref().map(|s| s.status != "ok" || s.results.iter().flatten().any(|x| matches!(x.0, Res::Panic(_)))).unwrap_or(false);
         {
             let mut o = stdout.lock();
             let _ = writeln!(o, "{}", serde_json::to_string(&r).unwrap());
